@@ -320,7 +320,11 @@ func (in *Interp) callSSA0(caller *frame, fn *ssa.Function, args []Value, env []
 		}
 	}
 	if fn.Blocks == nil {
-		panic(unsupported("no body for function " + fn.String()))
+		chain := ""
+		for f, k := caller, 0; f != nil && k < 6; f, k = f.caller, k+1 {
+			chain += " <- " + f.fn.String()
+		}
+		panic(unsupported("no body for function " + fn.String() + chain))
 	}
 	if fn.TypeParams().Len() > 0 && len(fn.TypeArgs()) == 0 {
 		panic(unsupported("uninstantiated generic " + fn.String()))
